@@ -9,6 +9,18 @@ import (
 	"github.com/ysugimoto/falco/v2/ast"
 )
 
+// Format the leading comments of an item (acl entry, declaration property, table item).
+// When the item starts a new group, the group separator already is the empty line in front of its
+// comments: an empty line of the first comment itself must not be added to it, otherwise the item
+// is written with two empty lines now and with one by the next pass.
+func (f *Formatter) formatItemLeading(comments ast.Comments, level int, startsGroup bool) string {
+	v := f.formatComment(comments, "\n", level)
+	if startsGroup {
+		v = strings.TrimPrefix(v, "\n")
+	}
+	return v
+}
+
 // Format acl declaration
 func (f *Formatter) formatAclDeclaration(decl *ast.AclDeclaration) *Declaration {
 	group := &GroupedLines{}
@@ -37,7 +49,7 @@ func (f *Formatter) formatAclDeclaration(decl *ast.AclDeclaration) *Declaration 
 			buf.WriteString(" " + v)
 		}
 		lines = append(lines, &DeclarationPropertyLine{
-			Leading:      f.formatComment(cidr.Leading, "\n", 1),
+			Leading:      f.formatItemLeading(cidr.Leading, 1, cidr.GetMeta().PreviousEmptyLines > 0),
 			Trailing:     f.trailing(cidr.Trailing),
 			Key:          buf.String(),
 			EndCharacter: ";",
@@ -110,7 +122,7 @@ func (f *Formatter) formatBackendProperties(props []*ast.BackendProperty, nestLe
 		}
 
 		line := &DeclarationPropertyLine{
-			Leading:  f.formatComment(prop.Leading, "\n", nestLevel),
+			Leading:  f.formatItemLeading(prop.Leading, nestLevel, prop.GetMeta().PreviousEmptyLines > 0),
 			Trailing: f.trailing(prop.Trailing),
 			Key:      f.indent(nestLevel) + "." + prop.Key.String(),
 			Operator: " = ",
@@ -176,7 +188,7 @@ func (f *Formatter) formatDirectorDeclaration(decl *ast.DirectorDeclaration) *De
 			lines = DeclarationPropertyLines{}
 		}
 		line := &DeclarationPropertyLine{
-			Leading:  f.formatComment(prop.GetMeta().Leading, "\n", 1),
+			Leading:  f.formatItemLeading(prop.GetMeta().Leading, 1, prop.GetMeta().PreviousEmptyLines > 0),
 			Trailing: f.trailing(prop.GetMeta().Trailing),
 			Key:      f.indent(1),
 		}
@@ -283,7 +295,7 @@ func (f *Formatter) formatTableProperties(props []*ast.TableProperty) string {
 			lines = DeclarationPropertyLines{}
 		}
 		line := &DeclarationPropertyLine{
-			Leading:      f.formatComment(prop.Leading, "\n", 1),
+			Leading:      f.formatItemLeading(prop.Leading, 1, prop.PreviousEmptyLines > 0),
 			Trailing:     f.trailing(prop.Trailing),
 			Operator:     ": ",
 			Key:          f.indent(1) + prop.Key.String(),
